@@ -205,6 +205,8 @@ def key(line):
         return '<<brace>>'
     s = _sub_get_unchecked(s)
     s = re.sub(r'\bunsafe\s*\{', '{', s)
+    if s == '{':
+        return '<<brace>>'
     s = re.sub(r'->\s*\((\w+)\s*:\s*(.+)\)(\s*\{?)$', r'-> \2\3', s)
     if s.endswith('{'):
         s = s[:-1].rstrip()
